@@ -134,7 +134,10 @@ def execute(cfg, chooser, want_trace=False):
         socks['a'] = cli
         established()
         wait_est()
-        for i in range(n_ab):
+        mine = range(n_ab)
+        if cfg.get('extra') == 'two-senders':
+            mine = range(0, n_ab // 2)        # a second thread sends the rest
+        for i in mine:
             if not cli.send(message('a', i, cfg['size'])):
                 return 'send-false@%d' % i
         if cfg.get('extra') == 'close':
@@ -154,6 +157,13 @@ def execute(cfg, chooser, want_trace=False):
         if cfg.get('extra') == 'close':
             out['after_close'] = conn.recv()      # None once the peer closed
         return 'rcvd'
+
+    def a_second():
+        wait_est()
+        for i in range(n_ab // 2, n_ab):
+            if not cli.send(message('a', i, cfg['size'])):
+                return 'send-false@%d' % i
+        return 'sent'
 
     def b_send():
         wait_est()
@@ -189,6 +199,8 @@ def execute(cfg, chooser, want_trace=False):
         s.spawn(guarded('a_recv', a_recv), 'a_recv')
     if cfg.get('extra') == 'busy':
         s.spawn(guarded('b_busy', b_busy), 'b_busy')
+    if cfg.get('extra') == 'two-senders':
+        s.spawn(guarded('a_send2', a_second), 'a_send2')
     s.run()
     return s, out, wire
 
@@ -201,6 +213,18 @@ def judge(cfg, s, out, wire):
     if s.verdict != 'finished':
         bad.append(('stuck|%s|%s' % (s.verdict, ','.join(
             sorted(n for n, st in s.stuck()))), dict(stuck=s.stuck())))
+    elif cfg.get('extra') == 'two-senders':
+        # two threads send on one socket: every message exactly once, each
+        # thread's own messages in its sending order
+        got = out['got_b']
+        half = n_ab // 2
+        pos = {m: i for i, m in enumerate(got)}
+        ok = sorted(map(repr, got)) == sorted(map(repr, want_b)) and all(
+            pos[want_b[i]] < pos[want_b[i + 1]]
+            for i in list(range(0, half - 1)) + list(range(half, n_ab - 1)))
+        if not ok:
+            bad.append(('delivery|a->b|two-senders|%s' % delivery_class(
+                got, want_b), dict(got=got, want=want_b)))
     else:
         if out['got_b'] != want_b:
             bad.append(('delivery|a->b|%s' % delivery_class(out['got_b'],
@@ -295,6 +319,8 @@ def configs(tier):
                         extra='busy', traced=traced))
         out.append(dict(rw=(2, 1), n=(3, 0), agf=True, miu=128, size=20,
                         extra='close', traced=traced))
+        out.append(dict(rw=(1, 1), n=(4, 0), agf=True, miu=128, size=20,
+                        extra='two-senders', traced=traced))
         return out
     for rw in ((1, 1), (2, 1), (1, 2), (2, 2)):
         for n in ((3, 0), (2, 2)):
@@ -307,6 +333,8 @@ def configs(tier):
     for rw in ((1, 1), (2, 2)):
         out.append(dict(rw=rw, n=(3, 0), agf=rw == (1, 1), miu=128, size=20,
                         extra='close', traced=traced))
+        out.append(dict(rw=rw, n=(4, 0), agf=rw == (2, 2), miu=128, size=20,
+                        extra='two-senders', traced=traced))
     out.append(dict(rw=(2, 2), n=(4, 3), agf=True, miu=129, size=129,
                     traced=traced))
     out.append(dict(rw=(3, 3), n=(4, 0), agf=False, miu=128, size=1,
